@@ -9,6 +9,9 @@ Definition ctype_eqb (a b : ctype) : bool :=
 Inductive obs := OServe (ct : ctype) (body : bytes) | ONext (same : bool) | O404 (ct : ctype) | OOther.
 Inductive api_obs := OASpec | OAUI | OARouter | OAOther.
 
+(* history cases: what one request got. HOServe carries the whole body *)
+Inductive hobs := HOServe (ct : ctype) (body : bytes) | HOSpec | HONext (same : bool) | HO404 (ct : ctype) | HORouter | HOOther.
+
 Inductive case :=
 | CClean (p r : bytes)                               (* path.Clean(p) = r *)
 | CJoin (elems : list bytes) (r : bytes)             (* path.Join(elems...) = r *)
@@ -24,7 +27,11 @@ Inductive case :=
      the page served at the UI path; ref_serves: that request, sent to the same handler, returns the spec; page: skel and
      base_skel of that page *)
 | CAPI (f : flavour) (a : api_in) (req : bytes) (o : api_obs) (abs : bool) (ref : option bytes) (ref_path want_path : option bytes)
-       (ref_serves : bool) (page : option (bytes * bytes)).
+       (ref_serves : bool) (page : option (bytes * bytes))
+  (* 2-4 middlewares / API handlers built in one process (member pages: what each serves when built ALONE, fetched by the
+     harness right after building it alone), chained (UI middlewares, each the next handler of the one before; requests go
+     to the head) or side by side (a request goes to member number target), and only THEN requested *)
+| CHist (chained has_next : bool) (ms : list member) (reqs : list (nat * bytes * hobs)).
 
 Definition obs_matches (ui : bool) (m : outcome) (o : obs) : bool :=
   match m, o with
@@ -53,6 +60,46 @@ Definition ref_faithful (spec_url r : bytes) (ref_path want_path : option bytes)
   | Some w => match ref_path with Some p => bytes_eqb (clean p) (clean w) | None => false end
   | None => true
   end.
+
+Definition hobs_matches (m : houtcome) (o : hobs) : bool :=
+  match m, o with
+  | HServe ct body, HOServe ct' body' => ctype_eqb ct ct' && bytes_eqb body body'
+  | HSpec, HOSpec => true
+  | HNext, HONext same => same
+  | H404 ct, HO404 ct' => ctype_eqb ct ct'
+  | HRouter, HORouter => true
+  | _, _ => false
+  end.
+
+Definition obs_of_hobs (o : hobs) : obs :=
+  match o with HOServe ct b => OServe ct b | HONext s => ONext s | HO404 ct => O404 ct | _ => OOther end.
+
+(* the property on one request of a history, phrased on the configured paths: the page served is the member's own *)
+Definition hist_prop (chained has_next : bool) (ms : list member) (r : nat * bytes * hobs) : bool :=
+  let '(k, req, o) := r in
+  if chained then
+    match find (fun m => bytes_eqb (clean req) (member_path m)) ms with
+    | Some m => match o with HOServe ct b => ctype_eqb ct CTHtml && bytes_eqb b (member_page m) | _ => false end
+    | None => if has_next then match o with HONext same => same | _ => false end
+              else match o with HO404 _ => true | _ => false end
+    end
+  else
+    match nth_error ms k with
+    | Some (MUI f o' page) => prop_handler false (ui_path f o') CTHtml page CTPlain has_next req (obs_of_hobs o)
+    | Some (MAPI f a page) =>
+      match o with
+      | HOSpec => bytes_eqb (clean req) (api_spec_path a)
+      | HOServe ct b => bytes_eqb (clean req) (ui_path f (api_ui_opts a)) && ctype_eqb ct CTHtml && bytes_eqb b page
+      | HORouter => negb (bytes_eqb (clean req) (api_spec_path a)) && negb (bytes_eqb (clean req) (ui_path f (api_ui_opts a)))
+      | _ => false
+      end
+    | None => false
+    end.
+
+Definition hist_corr (chained has_next : bool) (ms : list member) (r : nat * bytes * hobs) : bool :=
+  let '(k, req, o) := r in
+  if chained then forallb is_ui_member ms && hobs_matches (chain_handler ms has_next req) o
+  else match nth_error ms k with Some m => hobs_matches (member_handler m has_next req) o | None => false end.
 
 Definition check_case (c : case) : N :=
   match c with
@@ -93,4 +140,6 @@ Definition check_case (c : case) : N :=
              | OARouter => negb (bytes_eqb (clean req) (api_spec_path a)) && negb (bytes_eqb (clean req) (ui_path f (api_ui_opts a)))
              | OAOther => false
              end)
+  | CHist chained has_next ms reqs =>
+    verdict (forallb (hist_corr chained has_next ms) reqs) (forallb (hist_prop chained has_next ms) reqs)
   end.
